@@ -20,6 +20,8 @@ CACHE = os.path.join(core.VERIF, ".cache")
 
 
 def programs_for(tier, seed):
+    if os.environ.get("VERIF_REPLAY_DSL"):
+        return [("replay", os.environ["VERIF_REPLAY_DSL"])]
     cfgs = corpus.pairwise_configs() if tier == "quick" else corpus.all_configs()
     if tier == "quick":
         cfgs = cfgs[:12]
@@ -137,7 +139,7 @@ def run_engine(tier="quick", seed=0, langs=LANGS, use_cache=True):
         for f in sorted(files):
             if f.endswith(".v"):
                 vfp.update(open(os.path.join(root, f), "rb").read())
-    key = hashlib.sha256(("%s|%s|%s|%d|%s" % (fp, vfp.hexdigest(), tier, seed, ",".join(langs))).encode()).hexdigest()[:24]
+    key = hashlib.sha256(("%s|%s|%s|%d|%s|%s" % (fp, vfp.hexdigest(), tier, seed, ",".join(langs), os.environ.get("VERIF_REPLAY_DSL", ""))).encode()).hexdigest()[:24]
     os.makedirs(CACHE, exist_ok=True)
     cpath = os.path.join(CACHE, "engine-%s.json" % key)
     if use_cache and os.path.exists(cpath):
